@@ -222,6 +222,15 @@ MALFORMED_FILTERS = [
     ("not_in_string", lambda col: {col: ("not_in", "1")}),
     ("in_iterator", lambda col: {col: ("in", iter([1, 2]))}),   # one-shot iterator: silently empty after pruning
     ("in_dict", lambda col: {col: ("in", {1: 2})}),
+    ("between_string", lambda col: {col: ("between", "ab")}),   # two characters are not a (low, high) pair
+    ("between_set", lambda col: {col: ("between", {1, 3})}),    # a set has no order
+    ("between_dict", lambda col: {col: ("between", {1: 2, 3: 4})}),
+    ("between_iterator", lambda col: {col: ("between", iter([1, 3]))}),
+    ("is_null_false", lambda col: {col: ("is_null", False)}),   # must not be answered with the NULL rows
+    ("is_not_null_false", lambda col: {col: ("is_not_null", False)}),
+    ("is_null_string", lambda col: {col: ("is_null", "no")}),
+    ("unknown_column", lambda col: {"no_such_column": 1}),
+    ("unknown_column_and_known", lambda col: {"no_such_column": ("==", 1), col: ("is_not_null", True)}),
     ("nonstring_op", lambda col: {col: (5, 1)}),
     ("none_op", lambda col: {col: (None, 1)}),
 ]
